@@ -2,6 +2,8 @@ package c09
 
 import (
 	"github.com/ohler55/slip"
+
+	"verif/internal/sl"
 )
 
 // The chain workload: two-step histories on ONE object. A function does not
@@ -34,7 +36,7 @@ var chainSteps = []chainStep{
 	{"vector", "(fill c09-o 'x :start 1 :end 9)"}, {"vector", "(sort c09-o '<)"}, {"vector", "(setf (aref c09-o 1) '(1 . 2))"}, {"vector", "(nreverse c09-o)"},
 	{"array2d", "(adjust-array c09-o '(0 0))"}, {"array2d", "(adjust-array c09-o '(3 1))"}, {"array2d", "(adjust-array c09-o 4)"},
 	{"bitvec", "(setf (aref c09-o 0) 2)"}, {"bitvec", "(bit-not c09-o c09-o)"}, {"octets", "(setf (aref c09-o 0) 256)"}, {"octets", "(adjust-array c09-o 0)"},
-	{"str", "(setf (char c09-o 0) #\\\\Nul)"}, {"str", "(nstring-upcase c09-o :start 2 :end 9)"}, {"str", "(fill c09-o 1)"},
+	{"str", "(setf (char c09-o 0) (code-char 0))"}, {"str", "(nstring-upcase c09-o :start 2 :end 9)"}, {"str", "(fill c09-o 1)"},
 	// lists: destructively reordered, truncated by a failing operation, made improper
 	{"list3", "(nreverse c09-o)"}, {"list3", "(sort c09-o '>)"}, {"list3", "(setf (cdr (last c09-o)) 4)"}, {"list3", "(delete 2 c09-o)"},
 	{"list3", "(nconc c09-o 5)"}, {"list3", "(setf (nth 1 c09-o) '(1 . 2))"}, {"list3", "(nbutlast c09-o 5)"}, {"list3", "(map-into c09-o 'car c09-o)"},
@@ -114,7 +116,10 @@ func chainWrap(scope *slip.Scope, c *Case, form slip.List, withAfter bool) (slip
 	}
 	let := slip.List{slip.Symbol("common-lisp:let"), slip.List{slip.List{slip.Symbol("c09-o"), slip.List{slip.Symbol("quote"), obj}}}}
 	if withAfter {
-		code := slip.ReadString(c.After[1], scope)
+		var code slip.Code
+		if err := sl.Catch(func() { code = slip.ReadString(c.After[1], scope) }); err != nil {
+			return nil, "chain step cannot be read: " + c.After[1] + ": " + err.String()
+		}
 		if len(code) != 1 {
 			return nil, "chain step is not one form: " + c.After[1]
 		}
